@@ -258,9 +258,15 @@ pub trait PsSide {
 // ---------------------------------------------------------------------------------------------
 // Rust side
 
+/// own root directory: the shared /tmp/iceoryx2/{nodes,services} directories hold thousands of entries of
+/// other test processes and every node creation lists (and stats) them
+fn root_dir() -> String {
+    format!("/tmp/vf18_{}/", std::process::id())
+}
 fn rust_config(prefix: &str) -> iceoryx2::config::Config {
     let mut config = iceoryx2::config::Config::global_config().clone();
     config.global.prefix = iceoryx2_bb_system_types::file_name::FileName::new(prefix.as_bytes()).unwrap();
+    config.global.set_root_path(&iceoryx2_bb_system_types::path::Path::new(root_dir().as_bytes()).unwrap());
     config
 }
 fn rust_node(prefix: &str) -> Result<Node<S>, Out> {
@@ -477,6 +483,12 @@ impl CNode {
             iox2_config_from_ptr(iox2_config_global_config(), null_mut(), &mut cfg);
             let p = CString::new(prefix).unwrap();
             let rc = iox2_config_global_set_prefix(&cfg, p.as_ptr());
+            if rc != IOX2_OK {
+                iox2_config_drop(cfg);
+                return Err(Out::C("iox2_semantic_string_error_e", rc));
+            }
+            let r = CString::new(root_dir()).unwrap();
+            let rc = iox2_config_global_set_root_path(&cfg, r.as_ptr());
             if rc != IOX2_OK {
                 iox2_config_drop(cfg);
                 return Err(Out::C("iox2_semantic_string_error_e", rc));
@@ -975,13 +987,17 @@ impl FfiComp {
 impl Drop for FfiComp {
     fn drop(&mut self) {
         let _ = self.finish_case();
+        // the (empty) private root directory goes with the last case; a later case re-creates it
+        let _ = std::fs::remove_dir(format!("{}services", root_dir()));
+        let _ = std::fs::remove_dir(format!("{}nodes", root_dir()));
+        let _ = std::fs::remove_dir(root_dir());
     }
 }
 
 /// files of this domain that still exist: service + node directories, /dev/shm.  The per-domain
 /// `…global_mgmt` segment is shared by all nodes of a domain and stays by design; it is removed here.
 fn leftovers(prefix: &str) -> Vec<String> {
-    let cfg = iceoryx2::config::Config::global_config();
+    let cfg = rust_config(prefix);
     let root = format!("{}", cfg.global.root_path());
     let mut dirs = vec![format!("{}", cfg.global.service_dir()), format!("{}", cfg.global.node_dir()), "/dev/shm".to_string(), root];
     dirs.dedup();
